@@ -301,8 +301,10 @@ Fixpoint jrun (fs : files content) (x : icache ixobs) (bad : list nat) (evs : li
   match evs with
   | [] => []
   | JWrite d mt c :: t =>
-      (* a rewrite that does not move the time forward: outside ic_fresh's hypothesis (finding C08-F5) *)
-      let bad' := match fget fs d with Some (m0, _) => if Z.ltb m0 mt then bad else d :: bad | None => bad end in
+      (* a rewrite that does not move the time past EVERY time the file ever had: outside ic_fresh's
+         hypothesis (finding C08-F5); a later rewrite past all of them repairs every entry *)
+      let older := forallb (fun e => negb (Nat.eqb (fst e) d) || Z.ltb (fst (snd e)) mt) fs in   (* [fs] keeps every earlier binding *)
+      let bad' := if older then filter (fun x => negb (Nat.eqb x d)) bad else d :: bad in
       jrun (fwrite fs d mt c) x bad' t
   | JGet repos world obs res oracle :: t =>
       let (x', sl) := j_slots fs x repos in
